@@ -57,6 +57,11 @@ pub struct ClientCase {
     /// handshake timeout of the client in ms (0 = the 1 s all timing oracles assume)
     #[serde(default)]
     pub handshake_timeout_ms: u32,
+    /// further local connections opened together with the first one, each through another kind of local listener
+    /// (0 = the Unix-socket remote again, 1 = a TCP remote, 2 = the SOCKS5 listener (CONNECT by domain), 3 = the HTTP CONNECT listener):
+    /// every listener stays open while the tunnel is down and every accepted connection is served by the next successful connection
+    #[serde(default)]
+    pub extra_locals: Vec<u8>,
 }
 
 pub fn rt() -> &'static tokio::runtime::Runtime {
@@ -243,6 +248,8 @@ pub struct RunOut {
     /// local connection: (opened at ms, result)
     pub local: Option<(u64, Result<u64, String>)>,
     pub local_connect_failures: u32,
+    /// the additional local connections: (kind, opened at ms, result)
+    pub extra: Vec<(u8, u64, Result<u64, String>)>,
     pub wall_ms: u64,
 }
 
@@ -274,13 +281,112 @@ fn budget_ms(c: &ClientCase) -> u64 {
                 k = 1;
             }
             Attempt::HandshakeThenSilent => {
-                t += 1000 + 200 + c.local_delay_ms as u64;
+                t += 1000 + 200 + c.local_delay_ms as u64 + 20 * c.extra_locals.len() as u64;
                 k = 1;
             }
             Attempt::Healthy => {}
         }
     }
     t + 2500
+}
+
+trait LocalIo: tokio::io::AsyncRead + tokio::io::AsyncWrite + Unpin + Send {}
+impl<T: tokio::io::AsyncRead + tokio::io::AsyncWrite + Unpin + Send> LocalIo for T {}
+
+async fn connect_local_tcp(port: u16) -> Result<tokio::net::TcpStream, String> {
+    let mut failures = 0;
+    loop {
+        match tokio::net::TcpStream::connect(("127.0.0.1", port)).await {
+            Ok(s) => return Ok(s),
+            Err(e) => {
+                failures += 1;
+                if failures > 200 {
+                    return Err(format!("local listener does not accept connections: {e}"));
+                }
+                tokio::time::sleep(Duration::from_millis(10)).await;
+            }
+        }
+    }
+}
+
+/// One additional local connection: open it through the listener of `kind`, complete that listener's own handshake (SOCKS5 / HTTP
+/// CONNECT: the success reply can only come once the tunnel carries the stream), send a payload and expect it echoed.
+async fn extra_local(kind: u8, uds: &std::path::Path, ports: [u16; 3], n: u8) -> Result<(), String> {
+    let mut s: Box<dyn LocalIo> = match kind {
+        0 => {
+            let mut failures = 0;
+            loop {
+                match UnixStream::connect(uds).await {
+                    Ok(s) => break Box::new(s),
+                    Err(e) => {
+                        failures += 1;
+                        if failures > 200 {
+                            return Err(format!("local listener does not accept connections: {e}"));
+                        }
+                        tokio::time::sleep(Duration::from_millis(10)).await;
+                    }
+                }
+            }
+        }
+        1 => Box::new(connect_local_tcp(ports[0]).await?),
+        2 => {
+            let mut s = connect_local_tcp(ports[1]).await?;
+            s.write_all(&[5, 1, 0]).await.map_err(|e| format!("socks greeting: {e}"))?;
+            let mut sel = [0u8; 2];
+            s.read_exact(&mut sel).await.map_err(|e| format!("socks method selection: {e}"))?;
+            if sel != [5, 0] {
+                return Err(format!("socks5 method selection {sel:02x?}"));
+            }
+            let mut req = vec![5u8, 1, 0, 3, 12];
+            req.extend_from_slice(b"echo.invalid");
+            req.extend_from_slice(&7u16.to_be_bytes());
+            s.write_all(&req).await.map_err(|e| format!("socks request: {e}"))?;
+            let mut head = [0u8; 4];
+            s.read_exact(&mut head).await.map_err(|e| format!("socks reply: {e}"))?;
+            if head[..3] != [5, 0, 0] {
+                return Err(format!("socks5 reply header {head:02x?} is not a success reply"));
+            }
+            let rest = match head[3] {
+                1 => 6,
+                4 => 18,
+                3 => {
+                    let mut l = [0u8; 1];
+                    s.read_exact(&mut l).await.map_err(|e| format!("socks reply: {e}"))?;
+                    l[0] as usize + 2
+                }
+                x => return Err(format!("socks5 reply with ATYP {x}")),
+            };
+            let mut skip = vec![0u8; rest];
+            s.read_exact(&mut skip).await.map_err(|e| format!("socks reply: {e}"))?;
+            Box::new(s)
+        }
+        _ => {
+            let mut s = connect_local_tcp(ports[2]).await?;
+            s.write_all(b"CONNECT echo.invalid:7 HTTP/1.1\r\nHost: echo.invalid:7\r\n\r\n").await.map_err(|e| format!("http connect: {e}"))?;
+            let mut head = vec![];
+            let mut b = [0u8; 1];
+            while !head.ends_with(b"\r\n\r\n") {
+                s.read_exact(&mut b).await.map_err(|e| format!("http proxy reply: {e}"))?;
+                head.push(b[0]);
+                if head.len() > 4096 {
+                    return Err("http proxy reply too long".into());
+                }
+            }
+            let line = String::from_utf8_lossy(&head).to_string();
+            if !line.starts_with("HTTP/1.1 200") {
+                return Err(format!("http proxy answered {:?}", line.lines().next()));
+            }
+            Box::new(s)
+        }
+    };
+    let payload: Vec<u8> = (0..61u32 + n as u32).map(|i| (i * 11 + 5 + n as u32) as u8).collect();
+    s.write_all(&payload).await.map_err(|e| format!("local write: {e}"))?;
+    let mut back = vec![0u8; payload.len()];
+    s.read_exact(&mut back).await.map_err(|e| format!("local read: {e}"))?;
+    if back != payload {
+        return Err("echo corrupted".to_string());
+    }
+    Ok(())
 }
 
 pub async fn run_client_case(c: &ClientCase) -> Result<RunOut, String> {
@@ -295,13 +401,31 @@ pub async fn run_client_case(c: &ClientCase) -> Result<RunOut, String> {
         let s = tokio::net::UdpSocket::bind("127.0.0.1:0").await.map_err(|e| format!("udp bind: {e}"))?;
         s.local_addr().map_err(|e| e.to_string())?.port()
     };
+    // three free TCP ports for the additional listeners (TCP remote, SOCKS, HTTP CONNECT)
+    let mut extra_ports = [0u16; 3];
+    if !c.extra_locals.is_empty() {
+        let mut keep = vec![];
+        for p in extra_ports.iter_mut() {
+            let l = TcpListener::bind("127.0.0.1:0").await.map_err(|e| format!("bind: {e}"))?;
+            *p = l.local_addr().map_err(|e| e.to_string())?.port();
+            keep.push(l);
+        }
+    }
     let args: &'static ClientArgs = Box::leak(Box::new(ClientArgs {
         server: ServerUrl::from_str(&format!("{}://127.0.0.1:{port}/ws", if c.tls { "wss" } else { "ws" })).map_err(|e| format!("url: {e}"))?,
         tls_ca: if c.tls { Some(tls_fix().ca_path.clone()) } else { None },
-        remote: vec![
-            Remote { local_addr: LocalSpec::DomainSocket(uds.clone()), remote_addr: RemoteSpec::Inet(("echo.invalid".to_string(), 7)), protocol: Protocol::Tcp },
-            Remote { local_addr: LocalSpec::Inet(("127.0.0.1".to_string(), udp_port)), remote_addr: RemoteSpec::Inet(("echo.invalid".to_string(), 7)), protocol: Protocol::Udp },
-        ],
+        remote: {
+            let mut v = vec![
+                Remote { local_addr: LocalSpec::DomainSocket(uds.clone()), remote_addr: RemoteSpec::Inet(("echo.invalid".to_string(), 7)), protocol: Protocol::Tcp },
+                Remote { local_addr: LocalSpec::Inet(("127.0.0.1".to_string(), udp_port)), remote_addr: RemoteSpec::Inet(("echo.invalid".to_string(), 7)), protocol: Protocol::Udp },
+            ];
+            if !c.extra_locals.is_empty() {
+                v.push(Remote { local_addr: LocalSpec::Inet(("127.0.0.1".to_string(), extra_ports[0])), remote_addr: RemoteSpec::Inet(("echo.invalid".to_string(), 7)), protocol: Protocol::Tcp });
+                v.push(Remote { local_addr: LocalSpec::Inet(("127.0.0.1".to_string(), extra_ports[1])), remote_addr: RemoteSpec::Socks, protocol: Protocol::Tcp });
+                v.push(Remote { local_addr: LocalSpec::Inet(("127.0.0.1".to_string(), extra_ports[2])), remote_addr: RemoteSpec::Http, protocol: Protocol::Tcp });
+            }
+            v
+        },
         keepalive: OptionalDuration::NONE,
         keepalive_timeout: OptionalDuration::NONE,
         max_retry_count: c.max_retry_count,
@@ -387,6 +511,27 @@ pub async fn run_client_case(c: &ClientCase) -> Result<RunOut, String> {
         };
         (Some((opened, r)), failures.min(1) - failures.min(1))
     });
+    // further local connections through the other kinds of listener, opened together with the first one
+    let mut extras = vec![];
+    for (n, kind) in c.extra_locals.iter().copied().enumerate() {
+        let Some(after) = want_local else { break };
+        let (obs4, uds4) = (obs.clone(), uds.clone());
+        extras.push((kind, tokio::spawn(async move {
+            loop {
+                if obs4.lock().unwrap().attempts.len() > after as usize {
+                    break;
+                }
+                if t0.elapsed() > Duration::from_secs(60) {
+                    return (0u64, Err("the attempt the connection waits for was never seen".to_string()));
+                }
+                tokio::time::sleep(Duration::from_millis(5)).await;
+            }
+            tokio::time::sleep(Duration::from_millis(local_delay + 3 * (n as u64 + 1))).await;
+            let opened = t0.elapsed().as_millis() as u64;
+            let r = tokio::time::timeout(Duration::from_secs(25), extra_local(kind, &uds4, extra_ports, n as u8)).await.unwrap_or_else(|_| Err("no echo within 25 s".to_string()));
+            (opened, r.map(|()| t0.elapsed().as_millis() as u64))
+        })));
+    }
     let budget = budget_ms(c);
     // wait for the budget, or for both the client end (if the script makes it give up) and the local result
     let deadline = t0 + Duration::from_millis(budget + 6000);
@@ -396,7 +541,7 @@ pub async fn run_client_case(c: &ClientCase) -> Result<RunOut, String> {
         if client_end.is_none() && client.is_finished() {
             client_end = (&mut client).await.ok();
         }
-        let served = local.is_finished();
+        let served = local.is_finished() && extras.iter().all(|(_, h)| h.is_finished());
         let enough = t0.elapsed() > Duration::from_millis(budget);
         if (enough && (served || want_local.is_none())) || Instant::now() > deadline {
             break;
@@ -407,6 +552,17 @@ pub async fn run_client_case(c: &ClientCase) -> Result<RunOut, String> {
         tokio::time::sleep(Duration::from_millis(10)).await;
     }
     let local_res = if local.is_finished() { local.await.ok() } else { local.abort(); Some((Some((0, Err("local connection still waiting at the end of the case".to_string()))), 0)) };
+    let mut extra_res = vec![];
+    for (kind, h) in extras {
+        if h.is_finished() {
+            if let Ok((opened, r)) = h.await {
+                extra_res.push((kind, opened, r));
+            }
+        } else {
+            h.abort();
+            extra_res.push((kind, 0, Err("local connection still waiting at the end of the case".to_string())));
+        }
+    }
     if client_end.is_none() {
         client.abort();
     }
@@ -417,7 +573,7 @@ pub async fn run_client_case(c: &ClientCase) -> Result<RunOut, String> {
         Some((l, f)) => (l, f),
         None => (None, 0),
     };
-    Ok(RunOut { obs: o, client_end, local: if want_local.is_some() { local } else { None }, local_connect_failures: lf, wall_ms: t0.elapsed().as_millis() as u64 })
+    Ok(RunOut { obs: o, client_end, local: if want_local.is_some() { local } else { None }, local_connect_failures: lf, extra: extra_res, wall_ms: t0.elapsed().as_millis() as u64 })
 }
 
 /// Verdict on one run. Err((sig, msg, needs_confirmation))
@@ -550,6 +706,18 @@ pub fn judge(c: &ClientCase, r: &RunOut) -> Result<Vec<&'static str>, (String, S
                 }
                 Ok(_) => cl.push("local-served"),
             }
+            for (kind, opened, res) in &r.extra {
+                match res {
+                    Err(e) => {
+                        return Err((
+                            "c19-local-connection-lost".into(),
+                            format!("an additional local connection (listener kind {kind}: 0 unix remote, 1 tcp remote, 2 socks5, 3 http connect) opened at {opened} ms was not served by the next successful tunnel connection: {e} (attempts at {:?})", at.iter().map(|x| (x.0, x.1)).collect::<Vec<_>>()),
+                            true,
+                        ))
+                    }
+                    Ok(_) => cl.push(match kind { 0 => "extra-local-unix", 1 => "extra-local-tcp", 2 => "extra-local-socks5", _ => "extra-local-http" }),
+                }
+            }
             // opened while the tunnel was down?
             let healthy_at = at.iter().find(|x| x.1 == Attempt::Healthy).map(|x| x.0);
             if healthy_at.is_none_or(|h| *opened < h) {
@@ -619,7 +787,7 @@ pub fn check_many_stalls(n: &u32) -> Outcome {
     let n = *n as usize;
     let mut script = vec![Attempt::AcceptAndStall; n];
     script.push(Attempt::Healthy);
-    let c = ClientCase { script, max_retry_count: 0, max_retry_interval: 20, local_after_attempt: None, local_delay_ms: 0, udp_burst: 0, tcp_reset: false, tls: false, handshake_timeout_ms: 50 };
+    let c = ClientCase { script, max_retry_count: 0, max_retry_interval: 20, local_after_attempt: None, local_delay_ms: 0, udp_burst: 0, tcp_reset: false, tls: false, handshake_timeout_ms: 50, extra_locals: vec![] };
     // descriptors: what is open now + room for a handful of connections
     let open_now = std::fs::read_dir("/proc/self/fd").map(|d| d.count()).unwrap_or(64) as u64;
     let mut old = libc::rlimit { rlim_cur: 0, rlim_max: 0 };
@@ -669,27 +837,35 @@ fn client_case_plain() -> impl Strategy<Value = ClientCase> {
             }
             let la = la.map(|x| x.min(script.len() as u8));
             script.push(Attempt::Healthy);
-            ClientCase { script, max_retry_count: mrc, max_retry_interval: mri, local_after_attempt: la, local_delay_ms: ld, udp_burst: burst, tcp_reset, tls, handshake_timeout_ms: 0 }
+            ClientCase { script, max_retry_count: mrc, max_retry_interval: mri, local_after_attempt: la, local_delay_ms: ld, udp_burst: burst, tcp_reset, tls, handshake_timeout_ms: 0, extra_locals: vec![] }
         }),
+        // the same with one to four further local connections through the other listeners (TCP remote, SOCKS5, HTTP CONNECT, Unix again)
+        4 => (prop::collection::vec(attempt(), 1..4), 200u64..800, 0u8..4, 0u16..200, prop::collection::vec(0u8..4, 1..5), any::<bool>(), prop::bool::weighted(0.3)).prop_map(|(mut script, mri, la, ld, extra_locals, tcp_reset, tls)| {
+            let la = la.min(script.len() as u8 - 1);
+            script.push(Attempt::Healthy);
+            ClientCase { script, max_retry_count: 0, max_retry_interval: mri, local_after_attempt: Some(la), local_delay_ms: ld, udp_burst: 0, tcp_reset, tls, handshake_timeout_ms: 0, extra_locals }
+        }),
+        // several stream requests pending on a silent or dropped connection
+        2 => (200u64..800, 0u16..100, prop::collection::vec(0u8..4, 1..4), prop_oneof![Just(Attempt::HandshakeThenSilent), (30u16..400).prop_map(Attempt::SilentThenDrop)]).prop_map(|(mri, ld, extra_locals, first)| ClientCase { script: vec![first, Attempt::Healthy], max_retry_count: 0, max_retry_interval: mri, local_after_attempt: Some(0), local_delay_ms: ld, udp_burst: 0, tcp_reset: false, tls: false, handshake_timeout_ms: 0, extra_locals }),
         // a stalled stream request: handshake, then silence; the local connection must be served by the next connection
-        1 => (200u64..1000, 0u16..200).prop_map(|(mri, ld)| ClientCase { script: vec![Attempt::HandshakeThenSilent, Attempt::Healthy], max_retry_count: 0, max_retry_interval: mri, local_after_attempt: Some(0), local_delay_ms: ld, udp_burst: 0, tcp_reset: false, tls: false, handshake_timeout_ms: 0 }),
+        1 => (200u64..1000, 0u16..200).prop_map(|(mri, ld)| ClientCase { script: vec![Attempt::HandshakeThenSilent, Attempt::Healthy], max_retry_count: 0, max_retry_interval: mri, local_after_attempt: Some(0), local_delay_ms: ld, udp_burst: 0, tcp_reset: false, tls: false, handshake_timeout_ms: 0, extra_locals: vec![] }),
         // a stream request is pending (never answered) when the connection is dropped: it must be parked and served by the next connection
-        2 => (200u64..1000, 30u16..400, 0u16..20, any::<bool>()).prop_map(|(mri, d, ld, tcp_reset)| ClientCase { script: vec![Attempt::SilentThenDrop(d), Attempt::Healthy], max_retry_count: 0, max_retry_interval: mri, local_after_attempt: Some(0), local_delay_ms: ld, udp_burst: 0, tcp_reset, tls: false, handshake_timeout_ms: 0 }),
+        2 => (200u64..1000, 30u16..400, 0u16..20, any::<bool>()).prop_map(|(mri, d, ld, tcp_reset)| ClientCase { script: vec![Attempt::SilentThenDrop(d), Attempt::Healthy], max_retry_count: 0, max_retry_interval: mri, local_after_attempt: Some(0), local_delay_ms: ld, udp_burst: 0, tcp_reset, tls: false, handshake_timeout_ms: 0, extra_locals: vec![] }),
         // giving up after max_retry_count
         2 => (1u32..=4, 200u64..700, prop::bool::weighted(0.2)).prop_map(|(mrc, mri, stall)| {
             let mut script = vec![Attempt::AcceptAndDrop; mrc as usize + 2];
             if stall {
                 script[0] = Attempt::AcceptAndStall;
             }
-            ClientCase { script, max_retry_count: mrc, max_retry_interval: mri, local_after_attempt: None, local_delay_ms: 0, udp_burst: 0, tcp_reset: false, tls: false, handshake_timeout_ms: 0 }
+            ClientCase { script, max_retry_count: mrc, max_retry_interval: mri, local_after_attempt: None, local_delay_ms: 0, udp_burst: 0, tcp_reset: false, tls: false, handshake_timeout_ms: 0, extra_locals: vec![] }
         }),
         // never giving up with max_retry_count = 0
-        1 => (200u64..500).prop_map(|mri| ClientCase { script: vec![Attempt::AcceptAndDrop; 6], max_retry_count: 0, max_retry_interval: mri, local_after_attempt: None, local_delay_ms: 0, udp_burst: 0, tcp_reset: false, tls: false, handshake_timeout_ms: 0 }),
+        1 => (200u64..500).prop_map(|mri| ClientCase { script: vec![Attempt::AcceptAndDrop; 6], max_retry_count: 0, max_retry_interval: mri, local_after_attempt: None, local_delay_ms: 0, udp_burst: 0, tcp_reset: false, tls: false, handshake_timeout_ms: 0, extra_locals: vec![] }),
         // non-retryable answer
         1 => (prop::collection::vec(Just(Attempt::AcceptAndDrop), 0..3), 200u64..800).prop_map(|(mut script, mri)| {
             script.push(Attempt::Http403);
             script.push(Attempt::Healthy);
-            ClientCase { script, max_retry_count: 0, max_retry_interval: mri, local_after_attempt: None, local_delay_ms: 0, udp_burst: 0, tcp_reset: false, tls: false, handshake_timeout_ms: 0 }
+            ClientCase { script, max_retry_count: 0, max_retry_interval: mri, local_after_attempt: None, local_delay_ms: 0, udp_burst: 0, tcp_reset: false, tls: false, handshake_timeout_ms: 0, extra_locals: vec![] }
         }),
     ]
 }
@@ -697,7 +873,7 @@ fn client_case_plain() -> impl Strategy<Value = ClientCase> {
 pub fn run(ctx: &Ctx, rep: &mut Report) {
     rep.rule = "G1: Backoff::new(initial,max,mult,max_count) over all small tuples (initial,max in 0..6 units, mult 0..3, max_count 0..4) x all advance/reset sequences of length <= 8 (exhaustive) + random larger, against the closed form min(initial*mult^k, max). \
                 G2: the real client (client_main_inner, Unix-socket TCP remote) against a scripted fake server on loopback: per connection attempt {accept and drop, accept and stall the upgrade, 403, serve then orderly Close after d ms, serve then abrupt drop after d ms, handshake then silence, handshake then silence then drop after d ms, healthy}, max_retry_count 0..7, max_retry_interval 200..1000 ms (1600/3200 in the directed reset-after-success family), \
-                handshake/channel timeout 1 s, a local connection opened at a generated moment, 0/10/70/300 datagrams sent into the client's UDP remote right after the first attempt (while disconnected when the script starts with a failure). Oracle: gap between a visible failure and the next attempt >= the reference delay (hard) and <= delay + 0.3 s (confirmed by re-run), shortest delay again after any success, a new attempt after orderly Close / drop / stall, exactly max_retry_count+1 attempts then MaxRetryCountReached (never for 0), immediate end on the non-retryable answer, \
+                handshake/channel timeout 1 s, a local connection opened at a generated moment (in a third of the cases together with 1-4 further local connections through the client's other listeners: a TCP remote, the SOCKS5 listener, the HTTP CONNECT listener, the Unix-socket remote again - each must complete its own proxy handshake and be echoed through the next successful connection), 0/10/70/300 datagrams sent into the client's UDP remote right after the first attempt (while disconnected when the script starts with a failure). Oracle: gap between a visible failure and the next attempt >= the reference delay (hard) and <= delay + 0.3 s (confirmed by re-run), shortest delay again after any success, a new attempt after orderly Close / drop / stall, exactly max_retry_count+1 attempts then MaxRetryCountReached (never for 0), immediate end on the non-retryable answer, \
                 the local connection is echoed through the next successful connection. Non-trivial = a script with >= 2 failures and a success, or a local connection made while disconnected. Distinct = distinct case value."
         .into();
     rep.assumptions = vec![
@@ -719,7 +895,7 @@ pub fn run(ctx: &Ctx, rep: &mut Report) {
             let k = 3 + (i % 3) as usize;
             let mut script = vec![Attempt::HandshakeThenSilent; k];
             script.push(Attempt::Healthy);
-            ClientCase { script, max_retry_count: 2 + (i / 3) as u32, max_retry_interval: 3200, local_after_attempt: Some(0), local_delay_ms: 20, udp_burst: 0, tcp_reset: false, tls: i % 2 == 1, handshake_timeout_ms: 0 }
+            ClientCase { script, max_retry_count: 2 + (i / 3) as u32, max_retry_interval: 3200, local_after_attempt: Some(0), local_delay_ms: 20, udp_burst: 0, tcp_reset: false, tls: i % 2 == 1, handshake_timeout_ms: 0, extra_locals: vec![] }
         },
         check,
     );
@@ -735,7 +911,7 @@ pub fn run(ctx: &Ctx, rep: &mut Report) {
         |i| {
             let served = if i % 2 == 0 { Attempt::ServeThenClose(40 + 20 * (i as u16 / 4)) } else { Attempt::ServeThenDrop(40 + 20 * (i as u16 / 4)) };
             let mri = if (i / 2) % 2 == 0 { 3200 } else { 1600 };
-            ClientCase { script: vec![Attempt::AcceptAndDrop, Attempt::AcceptAndDrop, Attempt::AcceptAndDrop, served, Attempt::AcceptAndDrop, Attempt::Healthy], max_retry_count: 0, max_retry_interval: mri, local_after_attempt: Some(4), local_delay_ms: 10, udp_burst: if i % 2 == 0 { 200 } else { 0 }, tcp_reset: (i / 2) % 2 == 1, tls: i % 4 == 3, handshake_timeout_ms: 0 }
+            ClientCase { script: vec![Attempt::AcceptAndDrop, Attempt::AcceptAndDrop, Attempt::AcceptAndDrop, served, Attempt::AcceptAndDrop, Attempt::Healthy], max_retry_count: 0, max_retry_interval: mri, local_after_attempt: Some(4), local_delay_ms: 10, udp_burst: if i % 2 == 0 { 200 } else { 0 }, tcp_reset: (i / 2) % 2 == 1, tls: i % 4 == 3, handshake_timeout_ms: 0, extra_locals: vec![] }
         },
         check,
     );
